@@ -264,8 +264,8 @@ func c06Shapes(env *verifEnv, m *c06Material) []c06Shape {
 	issuer := st.idpGetIssuer()
 	badCookie("cookie-expired", env.sessionJWT("alice", lvl, now-7200, now-7200, now-100),
 		c06Token(true, true, false, true, true, 0, now-7200, now-100, now-7200, 1, lvl))
-	badCookie("cookie-not-yet-valid", env.sessionJWT("alice", lvl, now, now+1000, now+7200),
-		c06Token(true, true, false, true, true, 0, now+1000, now+7200, now, 1, lvl))
+	badCookie("cookie-not-yet-valid", env.sessionJWT("alice", lvl, now, now+86400, now+7200),
+		c06Token(true, true, false, true, true, 0, now+86400, now+7200, now, 1, lvl))
 	badCookie("cookie-foreign-key", verifSignClaims(m.foreignKey, authInfoJWT{Issuer: issuer, Subject: "alice", Audience: []string{issuer},
 		AuthType: lvl, TokenType: "keymaster_auth", NotBefore: now - 60, IssuedAt: now - 60, Expiration: now + 7200}),
 		c06Token(false, true, false, true, true, 0, now-60, now+7200, now-60, 1, lvl))
@@ -673,22 +673,28 @@ func (p *c06Prober) tableRows() (rows [2][][]interface{}, digest string) {
 }
 
 func (p *c06Prober) restoreTables() {
-	db := p.env.state.db
+	tx, err := p.env.state.db.Begin()
+	if err != nil {
+		p.t.Fatalf("restore begin: %v", err)
+	}
 	for i, tbl := range []string{"user_profile", "expiring_signed_user_data"} {
-		if _, err := db.Exec("delete from " + tbl); err != nil {
+		if _, err := tx.Exec("delete from " + tbl); err != nil {
 			p.t.Fatalf("restore delete: %v", err)
 		}
 		for _, r := range p.baseRows[i] {
 			var err error
 			if i == 0 {
-				_, err = db.Exec("insert into user_profile(username, profile_data) values (?, ?)", r...)
+				_, err = tx.Exec("insert into user_profile(username, profile_data) values (?, ?)", r...)
 			} else {
-				_, err = db.Exec("insert into expiring_signed_user_data(username, type, jws_data, expiration_epoch, update_epoch) values (?,?,?,?,?)", r...)
+				_, err = tx.Exec("insert into expiring_signed_user_data(username, type, jws_data, expiration_epoch, update_epoch) values (?,?,?,?,?)", r...)
 			}
 			if err != nil {
 				p.t.Fatalf("restore insert: %v", err)
 			}
 		}
+	}
+	if err := tx.Commit(); err != nil {
+		p.t.Fatalf("restore commit: %v", err)
 	}
 }
 
